@@ -83,6 +83,14 @@ def oracle(case, rec):
         xi, yi = emd.cycles.kdt_match(xa, ya, K=K, distance_upper_bound=bound)
     except Exception as e:
         raise Violation('C17/kdt_match/raises/%s/%s' % (type(e).__name__, ktag), repr(e))
+    held = (xi, yi)
+    keep = (np.array(xi), np.array(yi))
+    try:
+        emd.cycles.kdt_match(ya, xa, K=K)            # another matching in between (the two sets swapped)
+    except Exception as e:
+        raise Violation('C17/kdt_match/raises/%s/second-request' % type(e).__name__, repr(e))
+    if not (np.array_equal(np.asarray(held[0]), keep[0]) and np.array_equal(np.asarray(held[1]), keep[1])):
+        raise Violation('C17/kdt_match/earlier-result-changed-by-a-later-request', '')
     xi = np.asarray(xi)
     yi = np.asarray(yi)
     desc = 'nx=%d ny=%d d=%d K=%d bound=%r xi=%r yi=%r' % (x.shape[0], y.shape[0], x.shape[1], K, bound, xi.tolist()[:20], yi.tolist()[:20])
